@@ -90,7 +90,7 @@ def lean_imports(relpath, seen=None):
     return seen
 
 
-def build(prop):
+def build(prop, tier='quick'):
     """extract, build the property's targets, audit axioms.  Returns a dict:
        {extract: {area: status}, build_ok, build_log, failed_modules, theorems: {name: [axioms]},
         audit_ok, forbidden: [..], obligations, discharged}"""
@@ -146,6 +146,16 @@ def build(prop):
                         hits.append(f'{rel}:{i}: {l.strip()[:100]}')
         res['forbidden'] = hits
         res['lean_files'] = lean_imports(prop.AUDIT)
+        # thorough tier: independent re-check of the compiled property modules
+        res['leanchecker'] = None
+        if tier == 'thorough' and res['build_ok'] and props_ok:
+            mods = [t for t in prop.LEAN_TARGETS]
+            rc3, out3 = _run(['lake', 'env', 'leanchecker'] + mods, cwd=LEAN, timeout=1500)
+            res['leanchecker'] = 'ok' if rc3 == 0 else out3[-1500:]
+            if rc3 != 0:
+                res['build_ok'] = False
+                res['failed_modules'] = sorted(set(res['failed_modules'] + mods))
+                res['build_log'] += '\nleanchecker: ' + out3[-1500:]
         return res
     finally:
         fcntl.flock(lock, fcntl.LOCK_UN)
@@ -232,7 +242,7 @@ def main(prop, argv):
         return 0
 
     try:
-        b = build(prop)
+        b = build(prop, tier)
     except subprocess.TimeoutExpired as e:
         print(f'INFRA property={pid} timeout in build: {e}')
         return 2
@@ -402,6 +412,7 @@ def main(prop, argv):
             'axioms': b['theorems'],
             'lean_files': b['lean_files'],
             'extract_status': b['extract'],
+            'leanchecker': b.get('leanchecker'),
             'evaluations': stats['evaluations'],
             'distinct_nontrivial': len(stats['nontrivial']),
             'rule': prop.RULE,
